@@ -291,10 +291,10 @@ def run(chk):
     chk.rule("R10.4", "check() overrides conjoin the base sign test")
     chk.rule("R10.5", "listener table: event classes, labels, watched quantities")
     chk.rule("R10.6", "caller's arguments not mutated; visibility filter")
-    r10_1(chk)
-    r10_2(chk)
-    r10_3(chk)
-    r10_4(chk)
-    r10_5(chk)
-    r10_6(chk)
+    chk.guard(r10_1, chk)
+    chk.guard(r10_2, chk)
+    chk.guard(r10_3, chk)
+    chk.guard(r10_4, chk)
+    chk.guard(r10_5, chk)
+    chk.guard(r10_6, chk)
     chk.assume("watched quantities are continuous between samples (detection is complete w.r.t. sampling only)")
